@@ -78,7 +78,7 @@ def make_harness(params: Dict[str, Any]):
 def shards(tier: str) -> List[Dict[str, Any]]:
     out = c11.shards(tier)
     for model in c08.MODELS:
-        if model.startswith(("may-reject:", "verification-only:")) or not c08.MODELS[model].exists():
+        if model.startswith(c08.NOT_FOR_SERIALIZATION) or not c08.MODELS[model].exists():
             continue
         if model == "bytes":
             continue  # its valid documents are already rejected (open C11 finding on byte-array lengths): nothing to mutate
